@@ -1,11 +1,24 @@
-use std::sync::{Arc, atomic::AtomicI32};
-use toolbox_rs::{edge::TrivialEdge, geometry::FPCoordinate, inertial_flow::sub_step};
+// scratch probe (not part of any check)
+use toolbox_rs::dinic::Dinic;
+use toolbox_rs::edmonds_karp::EdmondsKarp;
+use toolbox_rs::ford_fulkerson::FordFulkerson;
+use toolbox_rs::edge::InputEdge;
+use toolbox_rs::max_flow::{MaxFlow, ResidualEdgeData};
+fn go<S: MaxFlow>(name: &str) {
+    let e: Vec<InputEdge<ResidualEdgeData>> = [(0, 1, 16), (0, 2, 13), (1, 2, 10), (1, 3, 12), (2, 1, 4), (2, 4, 14), (3, 2, 9), (3, 5, 20), (4, 3, 7), (4, 5, 4)]
+        .iter().map(|(u, v, c)| InputEdge::new(*u, *v, ResidualEdgeData::new(*c))).collect();
+    let mut s = S::from_edge_list(e, 0, 5);
+    s.run();
+    let a = s.max_flow();
+    let c1 = s.assignment(0).map(|b| b.iter().map(|x| if *x {'1'} else {'0'}).collect::<String>());
+    s.run();
+    let b = s.max_flow();
+    let c2 = s.assignment(0).map(|b| b.iter().map(|x| if *x {'1'} else {'0'}).collect::<String>());
+    s.run_with_upper_bound(std::sync::Arc::new(std::sync::atomic::AtomicI32::new(100)));
+    println!("{name}: first {a:?} {c1:?} second {b:?} {c2:?} third {:?}", s.max_flow());
+}
 fn main() {
-    let c = |n: usize| (0..n).map(|i| FPCoordinate::new(i as i32, 0)).collect::<Vec<_>>();
-    let e = |v: &[(usize,usize)]| v.iter().map(|(s,t)| TrivialEdge{source:*s,target:*t}).collect::<Vec<_>>();
-    let b = || Arc::new(AtomicI32::new(100));
-    println!("{:?}", sub_step(&e(&[]), &[0,1], &c(3), 0, 0.25, b()));
-    println!("{:?}", sub_step(&e(&[(0,1),(1,0),(3,4),(4,3)]), &[0,1,2,3,4], &c(5), 0, 0.49, b()));
-    println!("{:?}", sub_step(&e(&[(1,1),(0,2)]), &[0,1,2], &c(3), 0, 0.25, b()));
-    println!("{:?}", sub_step(&e(&[(0,1),(1,0),(2,3),(3,2)]), &[0,1,2,3], &c(4), 0, 0.25, b()));
+    go::<Dinic>("dinic");
+    go::<EdmondsKarp>("ek");
+    go::<FordFulkerson>("ff");
 }
